@@ -508,6 +508,26 @@ func c08Cases(c *mon.Ctx) []*c08Case {
 			}
 		}
 	}
+	// every errno the kernel can put in an ACK (1..133 and the largest value MAX_ERRNO), for every operation
+	for _, op := range c08Ops {
+		nr := 0
+		if op == "getrules" || op == "deleterules" {
+			nr = 2
+		}
+		for errno := 1; errno <= 134; errno++ {
+			e := errno
+			if e == 134 {
+				e = 4095
+			}
+			eas := []int{0}
+			if op == "deleterules" {
+				eas = []int{0, 1, 2}
+			}
+			for _, ea := range eas {
+				add(c08Case{Op: op, NRules: nr, Errno: e, ErrAt: ea})
+			}
+		}
+	}
 	// the transport refuses to send a request: the kernel never acknowledged it, so the call must fail
 	for _, op := range c08Ops {
 		nr := 0
